@@ -1253,7 +1253,9 @@ class ReferenceResolver:
             True (has unresolved crossrefs) or False (else)
         """
         if get_model(obj) != self.model:
-            return get_model(obj)._tx_reference_resolver.has_unresolved_crossrefs(obj)
+            return get_model(obj)._tx_reference_resolver.has_unresolved_crossrefs(
+                obj, attr_name
+            )
         else:
             for crossref_obj, attr, _ in self.parser._crossrefs:
                 if crossref_obj is obj and ((not attr_name) or attr_name == attr.name):
